@@ -47,6 +47,10 @@ func batches() []batch {
 		out = append(out, batch{fmt.Sprintf("closerace|%s|init", k)}, batch{fmt.Sprintf("closerace|%s|call", k)})
 	}
 	out = append(out, batch{"closerace|stdio"})
+	out = append(out, batch{"spawnrace|stdio|close"}, batch{"spawnrace|stdio|cancel"})
+	for _, k := range []kit.Kind{kit.SJSON, kit.SSSE, kit.LSSE} {
+		out = append(out, batch{fmt.Sprintf("spawnrace|%s", k)})
+	}
 	for _, s := range []string{"a-lookup", "a-cleanup", "b-1", "b-8", "c"} {
 		out = append(out, batch{"sched|" + s})
 	}
@@ -210,6 +214,12 @@ func child() {
 		} else {
 			closeRaceBatch(rep, kit.Kind(parts[1]), parts[2], thorough)
 		}
+	case "spawnrace":
+		if parts[1] == "stdio" {
+			spawnRaceStdio(rep, parts[2], rng, thorough)
+		} else {
+			spawnRaceHTTP(rep, kit.Kind(parts[1]), thorough)
+		}
 	case "errstatus":
 		errStatusBatch(rep, kit.Kind(parts[1]), parts[2], rng, thorough)
 	case "lifecycle":
@@ -292,7 +302,9 @@ func main() {
 		"calls ending with an HTTP error answer: only %d answers delivered, %d classes measured, %d errors returned", r.Counter("http_error_answers_delivered"), r.Counter("errstatus_classes_measured"), r.Counter("errstatus_errors_returned"))
 	r.Require(r.Counter("closerace_classes_measured") >= 50 && r.Counter("closerace_stalls_reached") >= 400 && r.Counter("closerace_peer_continued_after_close") >= 400,
 		"Close racing a stalled, still establishing call: only %d classes measured, %d stalls reached, %d times the peer continued after Close", r.Counter("closerace_classes_measured"), r.Counter("closerace_stalls_reached"), r.Counter("closerace_peer_continued_after_close"))
-	r.Finish("cases = (client kind in {S-json, S-sse, L-sse (legacy), stdio}) x (fault kind in {close, rst, stall, truncate; kill -9 / SIGTERM / exit / SIGSTOP / close-stdout for stdio; cancel, deadline; delayed / withheld terminating chunk}) x (point: every message boundary of the exchange - before the request is forwarded, after the request, after the response headers / the 202, between SSE events, before the final event, before the terminating chunk, on the legacy stream before / after the endpoint event, while calls are pending, before / after the answer event; stdio: before the first call, while pending, between calls, before / inside / after the response line - exhaustively; byte offsets inside request, response head, body / event: first byte, last byte and seeded samples) x pending calls in {1, 2, 8}, for target = the call, the Initialize handshake, and the client's listening stream; plus yield-controlled schedules of the three known races and the server side (N, 2N peers with listening streams, running handlers and pending server requests vanish by close / FIN / RST). Oracle per call: returns within 10 s of the fault (else goroutine dump must show it parked in the library), outcome is an error or the call's own complete answer (nonce + digest + length), context errors for cancellation; per case: Close returns, pending tables empty, and goroutines with library frames / persistConn loops / fds / child processes at quiescence do not grow case after case of the same class. Distinct = (kind, target, fault@point, pending count, outcome class) with the fault actually delivered. HTTP error answers (errstatus batches): (client kind in {S-json, S-sse, L-sse}) x (operation in {tools/call + tools/list, initialize, notification, open of the listening / event stream, DELETE of TerminateSession, the client's POST of its answer to a server-issued roots/list}) x (answer in {4xx / 5xx with JSON / text / HTML / SSE body framed by Content-Length, chunked, large, to-EOF, empty, chunked-never-finished; response head never finished / no answer at all; 202 / 204 where a result was expected; 200 of the wrong content type; 301..308 redirects ending in an error page; 429 / 5xx with client retries}) given by a gateway (the proxy answers itself), plus the library server's own 404 (session terminated on the server, unknown path) and 400 (session id dropped). Per class: baseline, n operations + Close, 2n more + Close; half of the callers never cancel their context. Oracle: each operation returns, never with a value that is not its own answer; pending table empty; goroutines with library frames / persistConn loops / fds / connections still seen open by the proxy must not be above the previous level both after n and after 2n more (and still after a longer wait). A class counts only when all its error answers reached the client. Close racing a call that is still establishing something (closerace batches): (client kind in {S-json, S-sse, L-sse, stdio}) x (the exchange is stalled - held by the relay / by a scripted child, not ended - at each message boundary and inside each unit of: Initialize (legacy: GET of the event stream before it is forwarded / before its response head / inside the head, the stream before / inside the endpoint event, the initialize POST before it is forwarded / before its 202, the stream before / inside the initialize answer, the POST of notifications/initialized before it is forwarded / before its 202; Streamable: the initialize POST before it is forwarded / before / inside / after its response head / inside its body, the notification's POST before it is forwarded / before its 202; stdio: before / inside the child's answer line, child dying of SIGINT / ignoring it / ignoring SIGINT + SIGPIPE and staying after the end of its stdin), the first ordinary call (the same points of its POST, between its SSE events, on the legacy stream before / inside its answer) and the open of the Streamable listening stream (GET before it is forwarded / before / inside / after its head)) x (caller's context: context.Background() / a deadline 30 min away that nobody cancels). While stalled: Close; then the peer continues (the stall is released, the real server answers, streams it opens stay open; nothing is cut by the harness). Per class: baseline, n cycles, 2n more. Oracle: the stalled call returns by Close or at the latest once the peer continued (10 s watchdog + goroutine dump), with an error or its own complete answer; Close returns; pending table empty; client-side goroutines with library frames / persistConn loops / fds / children / connections the relay still sees open must not be above the previous level both after n and after 2n more (and still after a longer wait). An Initialize that returns success after Close (Streamable: Close is not terminal, the client object is reusable) leaves a live client that the harness closes once more - counted as closerace_initialize_succeeded_after_close. A class counts only when every cycle reached its stall.",
+	r.Require(r.Counter("spawnrace_classes_measured") >= 20 && r.Counter("spawnrace_windows_reached") >= 120 && r.Counter("spawnrace_children_spawned") >= 40 && r.Counter("spawnrace_dials_held") >= 80,
+		"Close / cancel racing the creation of the child process / the TCP connect: only %d classes measured, %d windows reached, %d children spawned, %d connects held", r.Counter("spawnrace_classes_measured"), r.Counter("spawnrace_windows_reached"), r.Counter("spawnrace_children_spawned"), r.Counter("spawnrace_dials_held"))
+	r.Finish("cases = (client kind in {S-json, S-sse, L-sse (legacy), stdio}) x (fault kind in {close, rst, stall, truncate; kill -9 / SIGTERM / exit / SIGSTOP / close-stdout for stdio; cancel, deadline; delayed / withheld terminating chunk}) x (point: every message boundary of the exchange - before the request is forwarded, after the request, after the response headers / the 202, between SSE events, before the final event, before the terminating chunk, on the legacy stream before / after the endpoint event, while calls are pending, before / after the answer event; stdio: before the first call, while pending, between calls, before / inside / after the response line - exhaustively; byte offsets inside request, response head, body / event: first byte, last byte and seeded samples) x pending calls in {1, 2, 8}, for target = the call, the Initialize handshake, and the client's listening stream; plus yield-controlled schedules of the three known races and the server side (N, 2N peers with listening streams, running handlers and pending server requests vanish by close / FIN / RST). Oracle per call: returns within 10 s of the fault (else goroutine dump must show it parked in the library), outcome is an error or the call's own complete answer (nonce + digest + length), context errors for cancellation; per case: Close returns, pending tables empty, and goroutines with library frames / persistConn loops / fds / child processes at quiescence do not grow case after case of the same class. Distinct = (kind, target, fault@point, pending count, outcome class) with the fault actually delivered. HTTP error answers (errstatus batches): (client kind in {S-json, S-sse, L-sse}) x (operation in {tools/call + tools/list, initialize, notification, open of the listening / event stream, DELETE of TerminateSession, the client's POST of its answer to a server-issued roots/list}) x (answer in {4xx / 5xx with JSON / text / HTML / SSE body framed by Content-Length, chunked, large, to-EOF, empty, chunked-never-finished; response head never finished / no answer at all; 202 / 204 where a result was expected; 200 of the wrong content type; 301..308 redirects ending in an error page; 429 / 5xx with client retries}) given by a gateway (the proxy answers itself), plus the library server's own 404 (session terminated on the server, unknown path) and 400 (session id dropped). Per class: baseline, n operations + Close, 2n more + Close; half of the callers never cancel their context. Oracle: each operation returns, never with a value that is not its own answer; pending table empty; goroutines with library frames / persistConn loops / fds / connections still seen open by the proxy must not be above the previous level both after n and after 2n more (and still after a longer wait). A class counts only when all its error answers reached the client. Close racing a call that is still establishing something (closerace batches): (client kind in {S-json, S-sse, L-sse, stdio}) x (the exchange is stalled - held by the relay / by a scripted child, not ended - at each message boundary and inside each unit of: Initialize (legacy: GET of the event stream before it is forwarded / before its response head / inside the head, the stream before / inside the endpoint event, the initialize POST before it is forwarded / before its 202, the stream before / inside the initialize answer, the POST of notifications/initialized before it is forwarded / before its 202; Streamable: the initialize POST before it is forwarded / before / inside / after its response head / inside its body, the notification's POST before it is forwarded / before its 202; stdio: before / inside the child's answer line, child dying of SIGINT / ignoring it / ignoring SIGINT + SIGPIPE and staying after the end of its stdin), the first ordinary call (the same points of its POST, between its SSE events, on the legacy stream before / inside its answer) and the open of the Streamable listening stream (GET before it is forwarded / before / inside / after its head)) x (caller's context: context.Background() / a deadline 30 min away that nobody cancels). While stalled: Close; then the peer continues (the stall is released, the real server answers, streams it opens stay open; nothing is cut by the harness). Per class: baseline, n cycles, 2n more. Oracle: the stalled call returns by Close or at the latest once the peer continued (10 s watchdog + goroutine dump), with an error or its own complete answer; Close returns; pending table empty; client-side goroutines with library frames / persistConn loops / fds / children / connections the relay still sees open must not be above the previous level both after n and after 2n more (and still after a longer wait). An Initialize that returns success after Close (Streamable: Close is not terminal, the client object is reusable) leaves a live client that the harness closes once more - counted as closerace_initialize_succeeded_after_close. A class counts only when every cycle reached its stall. Close / cancel racing the CREATION of what a call needs (spawnrace batches): stdio - (the end of the client: Close with callers on context.Background() / cancellation of the caller's context followed by Close) x (window: before the first call; a seeded instant 0 .. 4 ms after the first call began; while the fork/exec of the server process is in progress - the harness holds syscall.ForkLock for reading so that exec.Cmd.Start blocks at the fork (seen in the goroutine dump: startProcess -> syscall.forkExec), Close runs to its end, then the lock is released; the same set-up with Close landing at the release of the lock / the moment GetProcessID becomes non-zero / up to 400 us later, i.e. right after Start returned, around the first byte written; while the child exists and is still starting up - it sleeps before reading its stdin and goes on while Close is at work) x (child dies of SIGINT / ignores SIGINT / ignores SIGINT + SIGPIPE and stays after the end of its stdin), n clients per round under one fork lock; Streamable / legacy - the first request that has to dial (initialize POST, notification POST, GET of the event / listening stream, first tools/call) goes through a user-level HTTPReqHandler whose transport blocks in DialContext: Close while the TCP connect is in progress, then the connect completes (dialer ignoring / honouring its context, alternating). Per class: baseline, n cycles, 2n more. Oracle: the first call returns once nothing the harness holds is in its way (10 s watchdog + goroutine dump; a cancelled call with a sleeping child must return without the child moving), with an error or its own complete answer; Close returns; pending table empty; children of this process (by pid from /proc, zombies included - the pids the library reported are followed up individually in the witness), fds, client-side goroutines with library frames, connections (also those the relay sees) must not be above the previous level both after n and after 2n more (and still after a longer wait). A class counts only when every cycle reached its window.",
 		[]string{
 			"byte offsets and cancellation instants are sampled (seeded, fixed counts); message boundaries x fault kinds x transports x pending counts are enumerated completely",
 			"'during connect' is approximated by holding the request inside the proxy (TCP accept is done by the kernel)",
